@@ -663,6 +663,15 @@ pub fn signatures(p: &ParsedSource, text: &str) -> BTreeMap<String, String> {
       if let Some(a) = pat_ann(&prm.pat) {
         out.insert(format!("{key}/param{i}"), snip(a.type_ann.span()));
       }
+      // does the parameter accept `undefined` (optional, defaulted, or typed so)?
+      let ann_text = pat_ann(&prm.pat).map(|a| snip(a.type_ann.span())).unwrap_or_default();
+      let accepts = match &prm.pat {
+        Pat::Assign(_) => true,
+        Pat::Ident(b) if b.id.optional => true,
+        Pat::Rest(_) => true,
+        _ => ann_text.contains("undefined") || ann_text == "any" || ann_text == "unknown" || ann_text.is_empty(),
+      };
+      out.insert(format!("{key}/param{i}/accepts-undefined"), if accepts { "yes".into() } else { "no".into() });
     }
     if let Some(r) = &f.return_type {
       out.insert(format!("{key}/return"), snip(r.type_ann.span()));
